@@ -57,7 +57,9 @@ if __name__ == "__main__":
         "/verif). `<ID>` is the first round, `<ID>b` a second round that was told the gist of the first change and "
         "asked for a different clause / code path, `<ID>c` a third round (histories, faults, input shapes, cooperating "
         "edits), `<ID>d` a fourth (rarely used options, dtypes, orderings, numerical edges, environment), `<ID>e` a fifth (interactions of "
-        "two input classes, extreme values, id formats, missing / non-finite values, scale). Each directory holds patch.diff (against /repo HEAD at the time), "
+        "two input classes, extreme values, id formats, missing / non-finite values, scale), `<ID>f` a sixth (caches, views / "
+        "copies, comparisons and off-by-one, fallbacks, config-driven selection, other entry points), `<ID>g` a seventh "
+        "(semantics of pandas / numpy calls on ties, NaN, empty groups, duplicated keys, dtypes). Each directory holds patch.diff (against /repo HEAD at the time), "
         "the demonstration and meta.json; `tools/eval_seeded.py` re-confirms everything (tests survive, demo fails "
         "with / passes without, which checks alarm). None of these changes is ever committed to /repo.")
     if os.path.isdir(os.path.join(HERE, "mutants")):
